@@ -25,6 +25,9 @@ Fixpoint t_dec (tbl : table) (s : bytes) : option taddr :=
 
 (** A case's table is printed as the list of its canonical addresses plus aliases (other
     strings decoding to one of them); addresses inside requests are references [ad c k]. *)
+(** An address as printed by the harness: canonical encoding and shape; the two flags are computed by the
+    model from the shape, never taken from the implementation. *)
+Definition A (enc : bytes) (s : ashape) : taddr := (enc, shape_memo s, shape_tonly s).
 Definition ad (c : list taddr) (k : nat) : taddr := nth k c ([], false, false).
 Definition mk_tbl (c : list taddr) (aliases : list (bytes * nat)) : table :=
   map (fun a => (t_enc a, a)) c ++ map (fun ka => (fst ka, ad c (snd ka))) aliases.
@@ -76,7 +79,9 @@ Inductive case :=
 (** [from_uri("zcash:<addr>?amount=" ++ s)] projected to the amount (None = rejected). *)
 | AmountParse (s : bytes) (o : option Z)
 (** the text after "amount=" in [to_uri] of a one-payment request of amount [z]. *)
-| AmountRender (z : Z) (o : bytes).
+| AmountRender (z : Z) (o : bytes)
+(** [can_receive_memo] / [is_transparent_only] of the real zcash_address on an address of shape [s]. *)
+| AddrFlags (s : ashape) (memo tonly : bool).
 
 Definition fixed_addr : taddr := ([122], true, false).
 Definition fixed_tbl : table := [([122], fixed_addr)].
@@ -117,6 +122,7 @@ Definition run_case (c : case) : bool :=
   | MemoFrom s o => mres_eqb (memo_out (memo_from_base64 s)) o
   | AmountParse s o => option_eqb Z.eqb (m_amount_parse s) o
   | AmountRender z o => bytes_eqb (m_amount_render z) o
+  | AddrFlags s memo tonly => Bool.eqb (shape_memo s) memo && Bool.eqb (shape_tonly s) tonly
   end.
 
 (** The property, evaluated on the implementation's outcome (Spec.v only, no parser model). *)
@@ -167,6 +173,7 @@ Definition prop_case (c : case) : bool :=
   | MemoFrom s o => negb (is_panic o)
   | AmountParse s o => option_eqb Z.eqb (amount_spec s) o
   | AmountRender z o => option_eqb Z.eqb (amount_spec o) (Some z) && amount_canonical o
+  | AddrFlags s memo tonly => Bool.eqb (shape_memo s) memo && Bool.eqb (shape_tonly s) tonly
   end.
 
 (** Known-finding classes (0 = none).  The defect found ([TransactionRequest::new] accepting
@@ -196,4 +203,7 @@ Definition tag_case (c : case) : N :=
    | MemoFrom _ o => 230 + match o with Ok _ => 0 | Err InvalidBase64 => 1 | Err MemoTooLong => 2 | Panic => 3 end
    | AmountParse _ o => 240 + match o with Some _ => 0 | None => 1 end
    | AmountRender _ _ => 250
+   | AddrFlags s memo tonly =>
+       260 + (match s with SSprout => 0 | SSapling => 1 | SP2pkh => 2 | SP2sh => 3 | STex => 4 | SUnified _ => 5 end) * 4
+       + (if memo then 2 else 0) + (if tonly then 1 else 0)
    end)%N.
